@@ -9,12 +9,13 @@ Lemma ex_log_ok_3_5 : log_ok (ex_log 3 5). Proof. solve_log_ok. Qed.
 Lemma ex_log_ok_5_1 : log_ok (ex_log 5 1). Proof. solve_log_ok. Qed.
 Lemma ex_log_ok_6_1 : log_ok (ex_log 6 1). Proof. solve_log_ok. Qed.
 Lemma ex_log_ok_7_1 : log_ok (ex_log 7 1). Proof. solve_log_ok. Qed.
+Lemma ex_log_ok_2_7 : log_ok (ex_log 2 7). Proof. solve_log_ok. Qed.
 
 Ltac solve_fsop_ok :=
   cbn [fstep_wf sop_ok];
   first [ exact I
         | split; [repeat (apply Forall_cons; [first [exact ex_log_ok_1_1|exact ex_log_ok_2_1|exact ex_log_ok_3_1
-                                            |exact ex_log_ok_2_2|exact ex_log_ok_3_5|exact ex_log_ok_4_1|exact ex_log_ok_5_1|exact ex_log_ok_6_1|exact ex_log_ok_7_1]|]); apply Forall_nil
+                                            |exact ex_log_ok_2_2|exact ex_log_ok_3_5|exact ex_log_ok_4_1|exact ex_log_ok_5_1|exact ex_log_ok_6_1|exact ex_log_ok_7_1|exact ex_log_ok_2_7]|]); apply Forall_nil
                  | vm_compute; reflexivity ]
         | unfold two64; lia
         | unfold wf_bytes, wf_byte, two31, len; cbn [length]; repeat split; try (repeat constructor; lia); lia ].
@@ -44,3 +45,7 @@ Lemma fh_trunc_create_leaves_ok : fault_hist_ok cfg256 fh_trunc_create_leaves.
 Proof. unfold fh_trunc_create_leaves. solve_fhist_ok cfg256_ok. Qed.
 Lemma fh_rotate_create_leaves_ok : fault_hist_ok cfg128 fh_rotate_create_leaves.
 Proof. unfold fh_rotate_create_leaves. solve_fhist_ok cfg128_ok. Qed.
+Lemma fh_commit_lands_ok : fault_hist_ok cfg128 fh_commit_lands.
+Proof. unfold fh_commit_lands. solve_fhist_ok cfg128_ok. Qed.
+Lemma fh_set_lands_ok : fault_hist_ok cfg256 fh_set_lands.
+Proof. unfold fh_set_lands. solve_fhist_ok cfg256_ok. Qed.
